@@ -167,6 +167,13 @@ class Cases:
                 rng.shuffle(rows)
             add(("ListTensor", rows))
             if len(shp) >= 2:
+                # near miss of the row shortcut [v[j,0], .., v[j,n-1]] -> v[j,:]: last indices 0..n-1 in order, LEADING indices differ
+                # (the diagonal, a shifted diagonal, one deviating row)
+                variants = [lambda k: tuple(C.FixedIndex((k + s_) % d) for s_, d in zip(range(len(shp) - 1), shp[:-1])),
+                            lambda k: tuple(C.FixedIndex((k + 1 + s_) % d) for s_, d in zip(range(len(shp) - 1), shp[:-1])),
+                            lambda k: tuple(C.FixedIndex(0 if k < n - 1 else d - 1) for d in shp[:-1])]
+                lead = rng.choice(variants)
+                add(("ListTensor", [C.Indexed(A, C.MultiIndex(lead(k) + (C.FixedIndex(k),))) for k in range(n)]))
                 n0 = shp[0]
                 free = [G.index(dim=d) for d in shp[1:]]
                 if len({i.count() for i in free}) == len(free):
@@ -594,6 +601,61 @@ class C05(Prop):
         for desc, data in obad:
             self.bad.append(("public operator: value / free indices of %s differ from the documented meaning (component %s, indices %s)" % (desc, data["component"], data["idx"]), data))
         ev.cov["operator_oracle_checks"] = nop
+        # tensor-algebra constructors (inner, outer, dot, cross) on operands that BOTH carry free indices of different extents, created in
+        # either order: the node has the union of the operands' free indices, each with its own extent, and the shape of the operation
+        import ufl
+        ncomp = 0
+        for k in range(n):
+            G3 = gen.Gen(rng, gdim=3, math=False, compound=False, derivs=False, reuse=0.85)
+            d1, d2 = rng.choice([(2, 3), (3, 2), (2, 3), (3, 3)])
+            i_old = G3.index(dim=d1)
+            i_new = G3.index(dim=d2, avoid=(i_old,))
+            if i_new.count() < i_old.count():
+                i_old, i_new = i_new, i_old
+            ia, ib = (i_new, i_old) if k % 2 == 0 else (i_old, i_new)        # every other time the FIRST operand has the newer index
+            opn = ["outer", "inner", "dot", "cross", "outer", "dot"][k % 6]
+            sa, sb = {"outer": ((2,), (3,)), "inner": ((2, 3), (2, 3)), "dot": ((2, 3), (3,)), "cross": ((3,), (3,))}[opn]
+            if k % 5 == 0 and opn in ("outer", "inner", "dot"):
+                sa = ()                                                       # one scalar operand: the shortcut branches
+                sb = () if opn == "inner" else sb
+            try:
+                a, b = G3.expr(sa, (ia,), 1), G3.expr(sb, (ib,), 1)
+                r = getattr(ufl, opn)(a, b)
+            except Exception:  # noqa
+                continue
+            ncomp += 1
+            want = dict(zip(a.ufl_free_indices, a.ufl_index_dimensions)); want.update(dict(zip(b.ufl_free_indices, b.ufl_index_dimensions)))
+            got = dict(zip(r.ufl_free_indices, r.ufl_index_dimensions))
+            wshape = {"outer": tuple(sa) + tuple(sb), "inner": (), "dot": tuple(sa[:-1]) + tuple(sb[1:]) if sa and sb else tuple(sa) + tuple(sb), "cross": (3,)}[opn]
+            if got != want or tuple(r.ufl_free_indices) != tuple(sorted(want)) or tuple(r.ufl_shape) != wshape:
+                self.bad.append(("%s(a, b): free indices / extents %s, shape %s; the operands have %s, the operation has shape %s" % (opn, got, tuple(r.ufl_shape), want, wshape),
+                                 dict(kind="compound-free-indices", op=opn, a=str(a)[:120], b=str(b)[:120], component=[], idx={})))
+        ev.cov["compound_free_index_checks"] = ncomp
+        # the scalar-operand shortcuts of outer / inner / dot on COMPLEX data (the conjugate sits on the documented operand)
+        nsc = 0
+        for k in range(max(6, n // 4)):
+            G4 = gen.Gen(rng, gdim=2, math=False, compound=False, derivs=False, reuse=0.5)
+            sc, sc2 = G4.coeffs[()][0], G4.coeffs[()][-1]
+            vc = G4.coeffs[(2,)][0]
+            cz = lambda: complex(rng.randint(-4, 4) / 2, rng.randint(1, 4) / 2)
+            vals = {sc: cz(), sc2: cz(), vc: (cz(), cz())}
+            x0 = (0.25, 0.5)
+            cases = [("outer(s, v)", ufl.outer(sc, vc), lambda c: vals[sc].conjugate() * vals[vc][c[0]], [(0,), (1,)]),
+                     ("outer(v, s)", ufl.outer(vc, sc2), lambda c: vals[vc][c[0]].conjugate() * vals[sc2], [(0,), (1,)]),
+                     ("inner(s, t)", ufl.inner(sc, sc2), lambda c: vals[sc] * vals[sc2].conjugate(), [()]),
+                     ("dot(s, t)", ufl.dot(sc, sc2), lambda c: vals[sc] * vals[sc2], [()]),
+                     ("inner(v, v2)", ufl.inner(vc, ufl.as_vector([sc, sc2])), lambda c: vals[vc][0] * vals[sc].conjugate() + vals[vc][1] * vals[sc2].conjugate(), [()])]
+            for desc, e4, want4, comps4 in cases:
+                for c in comps4:
+                    try:
+                        got4 = complex(e4(x0, vals, c))
+                    except Exception:  # noqa
+                        continue
+                    nsc += 1
+                    if abs(got4 - want4(c)) > 1e-9 * max(1.0, abs(want4(c))):
+                        self.bad.append(("%s on complex data: component %s evaluates to %s, the documented meaning gives %s" % (desc, list(c), got4, want4(c)),
+                                         dict(kind="compound-scalar-shortcut-complex", op=desc, component=list(c), idx={})))
+        ev.cov["compound_scalar_shortcut_complex_checks"] = nsc
         nval, vbad = vo.run()
         for desc, data in vbad:
             self.bad.append(("value of %s differs from the operation applied to the operand values (component %s, indices %s)" % (desc, data["component"], data["idx"]), data))
